@@ -188,6 +188,45 @@ func (rngdata *RangeNamespaceData) verifyShares(
 			return fmt.Errorf("empty shares at row %d", i)
 		}
 	}
+	// every row must carry exactly the shares of the requested range that fall into it
+	for i, row := range shares {
+		start, end := 0, odsSize
+		if i == 0 {
+			start = from.Col
+		}
+		if i == len(shares)-1 {
+			end = to.Col + 1
+		}
+		if len(row) != end-start {
+			return fmt.Errorf("mismatched shares amount at row %d: expected %d vs got %d", from.Row+i, end-start, len(row))
+		}
+	}
+	// incomplete rows can only be verified through their proofs, which must cover exactly
+	// the requested part of the row
+	firstRowEnd := odsSize
+	if len(shares) == 1 {
+		firstRowEnd = to.Col + 1
+	}
+	if from.Col != 0 || firstRowEnd != odsSize {
+		if rngdata.FirstIncompleteRowProof == nil {
+			return fmt.Errorf("missing proof for the incomplete first row %d", from.Row)
+		}
+		if rngdata.FirstIncompleteRowProof.End() != firstRowEnd {
+			return fmt.Errorf(
+				"first row proof end mismatch: expected %d vs got %d", firstRowEnd, rngdata.FirstIncompleteRowProof.End(),
+			)
+		}
+	}
+	if len(shares) > 1 && to.Col != odsSize-1 {
+		if rngdata.LastIncompleteRowProof == nil {
+			return fmt.Errorf("missing proof for the incomplete last row %d", to.Row)
+		}
+		if rngdata.LastIncompleteRowProof.Start() != 0 {
+			return fmt.Errorf(
+				"last row proof start mismatch: expected 0 vs got %d", rngdata.LastIncompleteRowProof.Start(),
+			)
+		}
+	}
 	if rngdata.FirstIncompleteRowProof != nil && rngdata.FirstIncompleteRowProof.Start() != from.Col {
 		return fmt.Errorf(
 			"first col share index mismatch: expected %d vs got %d", from.Col, rngdata.FirstIncompleteRowProof.Start(),
